@@ -159,6 +159,11 @@ theorem register_is_source (s : St) (j : Nat) : St.register repaired s j = Gen.r
   simp only [St.register, Gen.registerSrc, repaired]
   src_auto
 
+/-- the flag reader and the body translator agree on `aio_registerJob` (two independent readings of the same text). -/
+theorem register_flags_agree (s : St) (j : Nat) : St.register Gen.schedFlags s j = Gen.registerSrc s j := by
+  simp only [St.register, Gen.registerSrc, Gen.schedFlags]
+  src_auto
+
 /-- **`St.waiterRun` is one turn of the loop of `experiment.wait`**: `unfinishedJobs == 0` ⇒ leave the loop, then raise iff
     `failedJobs` is not empty; else sleep on the exit condition. -/
 theorem waiterRun_is_source (s : St) : St.waiterRun s = Gen.waiterRunSrc s := by
@@ -227,9 +232,18 @@ theorem after_abort_is_source (s : St) (j : Nat) (h : (s.jobs j).pc = .lockExitA
        let r := Gen.afterStartSrc (s1.jobs j) .waiting
        (s1.put j r.1 (if r.2 then [.wake j] else [])).loopHead j) := by
   unfold St.resume
-  simp only [h, repaired, Gen.afterStartSrc]
-  generalize (s.releaseAll j (s.jobs j).held) = s1
-  src_auto
+  simp only [h, repaired, Gen.afterStartSrc] <;>
+    (generalize (s.releaseAll j (s.jobs j).held) = s1; src_auto)
+
+/-- the flag reader and the body translator agree on the end of an aborted start. -/
+theorem after_abort_flags_agree (s : St) (j : Nat) (h : (s.jobs j).pc = .lockExitAbort) :
+    St.resume Gen.schedFlags s j =
+      (let s1 := s.releaseAll j (s.jobs j).held
+       let r := Gen.afterStartSrc (s1.jobs j) .waiting
+       (s1.put j r.1 (if r.2 then [.wake j] else [])).loopHead j) := by
+  unfold St.resume
+  simp only [h, Gen.schedFlags, Gen.afterStartSrc] <;>
+    (generalize (s.releaseAll j (s.jobs j).held) = s1; src_auto)
 
 /-- for any other returned state the same source segment only assigns it (what the model does with DONE / ERROR at the end
     of a launched job: no wake-up, no other field touched). -/
